@@ -40,9 +40,10 @@ package transport
 // without changing the tracked state.
 //@ func (c *Chunk) record [C15]
 //@ noframe
-//@ requires c.tracked != nil && chunk.ChunkId < MaxUint64
+//@ requires c.tracked != nil && chunk.ChunkId < MaxUint64 && held(c.mu) == 0
 //@ modifies held(c.mu), entries(c.tracked), allof(tracked.next), allof(tracked.tick), allof(tracked.files), rsm.gLastAddOK, rsm.gAddCalls
 //@ ensures chunk.ChunkId != 0 ==> rsm.gAddCalls == old(rsm.gAddCalls)
+//@ ensures held(c.mu) == 0
 //@ ensures result != nil && chunk.ChunkId != 0 ==> old(uf("chunkKeyOf", chunk.ShardID, chunk.ReplicaID, chunk.Index) in c.tracked) &&
 //@    result == old(c.tracked[uf("chunkKeyOf", chunk.ShardID, chunk.ReplicaID, chunk.Index)]) &&
 //@    old(result.next) == chunk.ChunkId && result.first.From == chunk.From && result.next == chunk.ChunkId + 1
